@@ -1,11 +1,14 @@
 package main
 
 import (
+	"fmt"
 	"go/ast"
 	"go/token"
 	"go/types"
 	"sort"
 	"strings"
+
+	"golang.org/x/tools/go/ssa"
 )
 
 // Rules on the generator's emitter functions (AST of tars2go/gencode). The generator prints Go
@@ -86,6 +89,119 @@ func dummiesOf(fd *ast.FuncDecl) []genDummy {
 	})
 	_ = pending
 	return out
+}
+
+// dummiesOfW: the same list taken from the SSA form, where a composite literal and an allocation
+// followed by field assignments are the same thing: for every call of a recursive emitter the member
+// it is fed (an allocation in this function) with the last Tag / Require stored before the call.
+func dummiesOfW(w *World, fd *ast.FuncDecl) []genDummy {
+	var fn *ssa.Function
+	if fd.Recv != nil {
+		fn = w.Func("gencode", recvTypeName(fd)+"."+fd.Name.Name)
+	} else {
+		fn = w.Func("gencode", fd.Name.Name)
+	}
+	if fn == nil {
+		return dummiesOf(fd)
+	}
+	var calls []*ssa.Call
+	eachInstr(fn, func(in ssa.Instruction) {
+		c, ok := in.(*ssa.Call)
+		if !ok {
+			return
+		}
+		if o := calleeObj(&c.Call); o != nil && (o.Name() == "genWriteVar" || o.Name() == "genReadVar") && len(c.Call.Args) >= 2 {
+			calls = append(calls, c)
+		}
+	})
+	sort.Slice(calls, func(i, j int) bool { return calls[i].Pos() < calls[j].Pos() })
+	var render func(v ssa.Value) string
+	render = func(v ssa.Value) string {
+		if k, ok := constInt(v); ok {
+			return fmt.Sprint(k)
+		}
+		if b, ok := constBool(v); ok {
+			return fmt.Sprint(b)
+		}
+		switch x := v.(type) {
+		case *ssa.Convert:
+			return types.TypeString(x.Type(), func(*types.Package) string { return "" }) + "(" + render(x.X) + ")"
+		case *ssa.BinOp:
+			if isRangeIndex(x) {
+				return "k"
+			}
+			return render(x.X) + x.Op.String() + render(x.Y)
+		}
+		return pathOf(v)
+	}
+	var out []genDummy
+	for _, c := range calls {
+		dir := map[string]string{"genWriteVar": "W", "genReadVar": "R"}[calleeObj(&c.Call).Name()]
+		for _, leaf := range phiLeaves(c.Call.Args[1]) {
+			a, ok := strip(leaf, false).(*ssa.Alloc)
+			if !ok {
+				if a2, ok2 := leaf.(*ssa.Alloc); ok2 {
+					a, ok = a2, true
+				}
+			}
+			if !ok {
+				continue // a member handed through (not a dummy built here)
+			}
+			d := genDummy{tag: "0", dir: dir, pos: a.Pos(), fn: fd.Name.Name}
+			last := map[string]*ssa.Store{}
+			for _, ref := range *a.Referrers() {
+				fa, ok := ref.(*ssa.FieldAddr)
+				if !ok {
+					continue
+				}
+				fname := fieldNameOf(fa)
+				for _, r2 := range *fa.Referrers() {
+					st, ok := r2.(*ssa.Store)
+					if !ok || st.Addr != ssa.Value(fa) || !instrDominates(st, c) {
+						continue
+					}
+					if l := last[fname]; l == nil || instrDominates(l, st) {
+						last[fname] = st
+					}
+				}
+			}
+			if st := last["Tag"]; st != nil {
+				d.tag = render(st.Val)
+			}
+			if st := last["Require"]; st != nil {
+				d.req = render(st.Val)
+			}
+			out = append(out, d)
+		}
+	}
+	return out
+}
+
+// isRangeIndex: the index of a `for k := range` loop as go/ssa builds it (k = φ(-1, k) + 1).
+func isRangeIndex(b *ssa.BinOp) bool {
+	if b.Op != token.ADD {
+		return false
+	}
+	one, ok := constInt(b.Y)
+	phi, ok2 := b.X.(*ssa.Phi)
+	if !ok || !ok2 || one != 1 {
+		return false
+	}
+	hasInit, hasSelf := false, false
+	for _, e := range phi.Edges {
+		if k, ok := constInt(e); ok && k == -1 {
+			hasInit = true
+		}
+		if e == ssa.Value(b) {
+			hasSelf = true
+		}
+	}
+	return hasInit && hasSelf
+}
+
+func fieldNameOf(fa *ssa.FieldAddr) string {
+	t := fa.X.Type().Underlying().(*types.Pointer).Elem().Underlying().(*types.Struct)
+	return t.Field(fa.Field).Name()
 }
 
 func tagSet(ds []genDummy, dir string) []string {
@@ -275,7 +391,7 @@ func init() {
 			r.Check(strings.Join(cw, ",") == strings.Join(cr, ","), where("genWriteVar/genReadVar"), "same type cases", fns["genReadVar"].Pos(), "both dispatch over %v", "the writer dispatches over %v but the reader over %v: a type is written in one form and read in another", cw, cr)
 			// G2 containers
 			for _, pair := range pairs {
-				a, b := tagSeq(dummiesOf(fns[pair[0]]), "W"), tagSeq(dummiesOf(fns[pair[1]]), "R")
+				a, b := tagSeq(dummiesOfW(r.w, fns[pair[0]]), "W"), tagSeq(dummiesOfW(r.w, fns[pair[1]]), "R")
 				want := []string{"0"}
 				if strings.Contains(pair[0], "Map") {
 					want = []string{"0", "1"}
@@ -285,7 +401,7 @@ func init() {
 			}
 			// G2b elements, parameters and results are always present: every dummy member is Require: true
 			for _, n := range need[2:] {
-				for _, d := range dummiesOf(fns[n]) {
+				for _, d := range dummiesOfW(r.w, fns[n]) {
 					if d.dir == "" {
 						continue
 					}
@@ -293,7 +409,7 @@ func init() {
 				}
 			}
 			// G2 proxy ⇄ dispatcher
-			pd, dd := dummiesOf(fns["genIFProxyFun"]), dummiesOf(fns["genSwitchCase"])
+			pd, dd := dummiesOfW(r.w, fns["genIFProxyFun"]), dummiesOfW(r.w, fns["genSwitchCase"])
 			pw, prd := tagSet(pd, "W"), tagSet(pd, "R")
 			dw, drd := tagSet(dd, "W"), tagSet(dd, "R")
 			r.Check(len(pw) > 0 && subset(pw, drd), where("genIFProxyFun/genSwitchCase"), "argument tags", fns["genSwitchCase"].Pos(), "arguments are written under %v, which the dispatcher reads", "the proxy emitter writes arguments under tags %v but the dispatcher emitter reads %v: every freshly generated service mis-decodes its arguments (checked-in bindings were generated earlier and stay green)", pw, drd)
